@@ -19,30 +19,30 @@ trailing `!far` if a guard byte further away changed).  The model predicts every
 namespace Cnl.Drv
 open Cnl Cnl.Charconv
 
-def hexDigit (n : Nat) : Char := if n < 10 then Char.ofNat (48 + n) else Char.ofNat (87 + n)
+def tcHexDigit (n : Nat) : Char := if n < 10 then Char.ofNat (48 + n) else Char.ofNat (87 + n)
 
-def encChar (c : Char) : List Char :=
+def tcEncChar (c : Char) : List Char :=
   if c.toNat > 0x20 ∧ c.toNat < 0x7f ∧ c ≠ '\\' ∧ c ≠ '|' then [c]
-  else ['\\', hexDigit (c.toNat / 16 % 16), hexDigit (c.toNat % 16)]
+  else ['\\', tcHexDigit (c.toNat / 16 % 16), tcHexDigit (c.toNat % 16)]
 
-def encChars (cs : List Char) : String := String.ofList (cs.flatMap encChar)
+def tcEncChars (cs : List Char) : String := String.ofList (cs.flatMap tcEncChar)
 
-def hexVal (c : Char) : Nat :=
+def tcHexVal (c : Char) : Nat :=
   if '0' ≤ c ∧ c ≤ '9' then c.toNat - 48 else if 'a' ≤ c ∧ c ≤ 'f' then c.toNat - 87 else 0
 
-def decChars : List Char → List Char
-  | '\\' :: a :: b :: r => Char.ofNat (hexVal a * 16 + hexVal b) :: decChars r
-  | c :: r => c :: decChars r
+def tcDecChars : List Char → List Char
+  | '\\' :: a :: b :: r => Char.ofNat (tcHexVal a * 16 + tcHexVal b) :: tcDecChars r
+  | c :: r => c :: tcDecChars r
   | [] => []
 
-def guardStr : String := "@@@@"
+def tcGuardStr : String := "@@@@"
 
-def showTCR (r : TCR) : String :=
+def tcShowTCR (r : TCR) : String :=
   let ec := if r.ok then "ok" else "big"
   let p := match r.ptr with
     | some p => toString p
     | none => "null"
-  ec ++ ":" ++ p ++ ":" ++ guardStr ++ encChars (r.buf.cells.map (fun c => c.getD '#')) ++ guardStr
+  ec ++ ":" ++ p ++ ":" ++ tcGuardStr ++ tcEncChars (r.buf.cells.map (fun c => c.getD '#')) ++ tcGuardStr
 
 /-- an implementation result `<ec>:<ptr>:<buffer>` -/
 structure ImplTCR where
@@ -60,7 +60,7 @@ def parseImplTCR (res : String) : Option ImplTCR :=
     let ok? := if ec == "ok" then some true else if ec == "big" then some false else none
     let ptr? : Option (Option Nat) := if p == "null" then some none else p.toNat?.map some
     match ok?, ptr? with
-    | some ok, some ptr => some ⟨ok, ptr, decChars body.toList, far⟩
+    | some ok, some ptr => some ⟨ok, ptr, tcDecChars body.toList, far⟩
     | _, _ => none
   | _ => none
 
@@ -70,7 +70,7 @@ def c13Contract (len : Nat) (res : String) : Bool :=
   match parseImplTCR res with
   | none => false
   | some r =>
-    let g := guardStr.toList
+    let g := tcGuardStr.toList
     r.far == false && r.bytes.length == len + 8 && r.bytes.take 4 == g && r.bytes.drop (len + 4) == g &&
     (let body := (r.bytes.drop 4).take len
      match r.ok, r.ptr with
@@ -78,34 +78,34 @@ def c13Contract (len : Nat) (res : String) : Bool :=
      | false, some p => p == len
      | _, none => false)
 
-inductive TyK where
+inductive TcTyK where
   | int (T : IntTy)
   | sc (T : IntTy) (e : Int) (radix : Nat)
 
-def parseTyK (s : String) : Option TyK :=
+def parseTcTyK (s : String) : Option TcTyK :=
   match parseTy s with
   | some (.int T) => some (.int T)
   | some (.sc (.int T) e x) => some (.sc T e x)
   | _ => none
 
-def isMostNegMsg : Res TCR → Bool
+def tcIsMostNegMsg : Res TCR → Bool
   | .unreachable m => m == "assert: most negative value"
   | _ => false
 
-def isMostNegMsgT : Res (List Char) → Bool
+def tcIsMostNegMsgT : Res (List Char) → Bool
   | .unreachable m => m == "assert: most negative value"
   | _ => false
 
 /-- the text of a result at capacity, as the `fix` line shows it -/
-def showFix (cap : Int) (text : Res (List Char)) (tc : Res TCR) : String :=
+def tcShowFix (cap : Int) (text : Res (List Char)) (tc : Res TCR) : String :=
   match text, tc with
   | .ok t, .ok r =>
     let arr := t ++ List.replicate (cap.toNat + 1 - t.length) (Char.ofNat 0)
-    toString t.length ++ ":" ++ encChars arr ++ "|" ++ encChars t ++ "|" ++ encChars t ++ "|" ++ showTCR r
+    toString t.length ++ ":" ++ tcEncChars arr ++ "|" ++ tcEncChars t ++ "|" ++ tcEncChars t ++ "|" ++ tcShowTCR r
   | .ok _, o => showRes (fun _ => "") o
   | o, _ => showRes (fun _ => "") o
 
-def branchOf (r : Res TCR) (sci : Bool) : String :=
+def tcBranchOf (r : Res TCR) (sci : Bool) : String :=
   match r with
   | .ok t => if t.ok then (if sci then "ok/scientific" else "ok/fixed") else "too_large"
   | .unreachable _ => "assert"
@@ -113,7 +113,7 @@ def branchOf (r : Res TCR) (sci : Bool) : String :=
   | .oob _ => "oob"
   | _ => "ub"
 
-def hasE (r : Res TCR) : Bool :=
+def tcHasE (r : Res TCR) : Bool :=
   match r with
   | .ok t => t.buf.cells.contains (some 'e')
   | _ => false
@@ -125,28 +125,28 @@ def evalCharconv (toks : List String) : Option (String × String × String) :=
   | ["int", t, base, len, v] => do
     let T ← parseIntTy t; let base ← base.toNat?; let len ← len.toNat?; let v ← v.toInt?
     let r := intToChars T (Buf.fresh len) v base
-    some (showRes showTCR r, if isMostNegMsg r then "most_negative_integer" else "",
+    some (showRes tcShowTCR r, if tcIsMostNegMsg r then "most_negative_integer" else "",
       "int/" ++ (match r with | .ok t => (if t.ok then "ok" else "too_large") | _ => "assert"))
   | ["sc", t, len, rep] => do
-    let .sc T e x ← parseTyK t | none
+    let .sc T e x ← parseTcTyK t | none
     let len ← len.toNat?; let rep ← rep.toInt?
     let r := scaledToChars T e x len rep
-    some (showRes showTCR r, if isMostNegMsg r then "most_negative_integer" else "", "sc/" ++ branchOf r (hasE r))
+    some (showRes tcShowTCR r, if tcIsMostNegMsg r then "most_negative_integer" else "", "sc/" ++ tcBranchOf r (tcHasE r))
   | ["cap", t] => do
-    match ← parseTyK t with
+    match ← parseTcTyK t with
     | .int T => some (toString (intCapacity T), "", "cap/int")
     | .sc T e x => some (toString (scaledCapacity T e x), "", "cap/sc")
   | ["fix", t, v] => do
     let v ← v.toInt?
-    match ← parseTyK t with
+    match ← parseTcTyK t with
     | .int T =>
       let tx := intStaticText T v
-      some (showFix (intCapacity T) tx (intToChars T (Buf.fresh (intCapacity T)) v 10),
-        if isMostNegMsgT tx then "most_negative_integer" else "", "fix/int")
+      some (tcShowFix (intCapacity T) tx (intToChars T (Buf.fresh (intCapacity T)) v 10),
+        if tcIsMostNegMsgT tx then "most_negative_integer" else "", "fix/int")
     | .sc T e x =>
       let tx := scaledStaticText T e x v
-      some (showFix (scaledCapacity T e x) tx (scaledToChars T e x (scaledCapacity T e x).toNat v),
-        if isMostNegMsgT tx then "most_negative_integer" else "", "fix/sc")
+      some (tcShowFix (scaledCapacity T e x) tx (scaledToChars T e x (scaledCapacity T e x).toNat v),
+        if tcIsMostNegMsgT tx then "most_negative_integer" else "", "fix/sc")
   | _ => none
 
 def checkC13 (toks : List String) (res : String) : Option Verdict := do
